@@ -100,18 +100,23 @@ def gen_case(rng):
         idxs.append(idx_for(rng, ("first",), vlen, scal, mode))
         for st in steps[:nsteps]:
             idxs.append(idx_for(rng, st, vlen, scal, mode))
+    if idxs and rng.random() < 0.06:
+        # operands LLVM rejects (mismatching vector lengths, mixed fixed/scalable): no oracle applies (spec undefined or
+        # not meaningful), but the three pipelines are still compared with the model (panic vs type)
+        j = rng.randrange(len(idxs))
+        idxs[j] = rng.choice(["n:V3(i64)", "n:S2(i64)", "z:V3(i32)", "u:S4(i64)", "v:64:1,1,1", "n:V2(i64)"])
     return elem, src, idxs
 
 
 def raw_case(rng):
     elem, steps = gen_elem(rng, rng.randint(0, 3))
-    src = rng.choice(["p0(%s)", "p2(%s)", "V2(p0(%s))", "V4(p1(%s))"]) % elem
+    src = rng.choice(["p0(%s)", "p2(%s)", "V2(p0(%s))", "V4(p1(%s))", "S2(p0(%s))"]) % elem
     raw = []
     n = rng.randint(0, len(steps) + 1)
     for i in range(n):
         hv = rng.random() < 0.7
         val = steps[i - 1][1] if (i > 0 and i - 1 < len(steps) and steps[i - 1][0] == "struct") else rng.choice([0, 1, 2])
-        raw.append("%d:%d:%d" % (1 if hv else 0, val if hv else 0, rng.choice([0, 0, 0, 2, 4])))
+        raw.append("%d:%d:%d:%d" % (1 if hv else 0, val if hv else 0, rng.choice([0, 0, 0, 2, 4]), rng.choice([0, 0, 1])))
     return "gep.rt %s %s %s" % (elem, src, " ".join(raw))
 
 
